@@ -1,7 +1,7 @@
 (* C18/Property.v — the property theorems and nothing else. *)
 From Coq Require Import List Arith.
 Import ListNotations.
-From SM Require Import C18.Model C18.Proofs.
+From SM Require Import C18.Model C18.Proofs C18.Names.
 
 (* For every number of processes, every interleaving of their steps and every
    set of kill points (a killed process is one that is not scheduled again):
@@ -42,3 +42,19 @@ Print Assumptions C18_unwind_recovers.
 Theorem C18_unwind_publish_refuted : exists evs, final (erun true evs init) = Partial.
 Proof. exact unwind_publish_refuted. Qed.
 Print Assumptions C18_unwind_publish_refuted.
+
+(* ---- temporary NAMES made explicit (C18/Names.v): the linker removes its output name and creates a fresh file,
+   os.replace makes the final name refer to whatever file the temporary name refers to at that moment.  With
+   pairwise distinct temporary names the final name never refers to an incomplete file and every load saw a
+   complete library, for every schedule and every set of kill points; one name shared by two builders (a name
+   computed once, before fork) is refuted.  The run checks the hypothesis on every real schedule: the output
+   names the scripted compiler is given by different builders are pairwise distinct. *)
+Theorem C18_distinct_names_safe : forall tname : nat -> nat, (forall p q, tname p = tname q -> p = q) ->
+  forall sched, let s := nrun tname sched ninit in
+  (fcontent s = Absent \/ fcontent s = Complete) /\ (forall p c, nloaded s p = Some c -> c = Complete).
+Proof. exact names_safe. Qed.
+Print Assumptions C18_distinct_names_safe.
+
+Theorem C18_shared_name_refuted : exists sched, nloaded (nrun (fun _ => 0) sched ninit) 1 = Some Partial.
+Proof. exact shared_name_refuted. Qed.
+Print Assumptions C18_shared_name_refuted.
